@@ -193,6 +193,15 @@ func priorCalls(tau time.Duration, tries, nds int) int {
 	return (int(tau/time.Millisecond) + tries + nds) % 3
 }
 
+// companions: how many other unanswered calls overlap the observed one on the same client (0..2): the first
+// starts half a timeout before it, the second half a timeout after it
+func companions(tau time.Duration, tries, nds int) int {
+	if tries < 2 || tries > 5 {
+		return 0
+	}
+	return (int(tau/time.Millisecond)/2 + tries + nds) % 3
+}
+
 func (c *labConn) snapshot() []writeRec {
 	c.mu.Lock()
 	defer c.mu.Unlock()
@@ -239,6 +248,25 @@ func timedCallV4(tau time.Duration, tries int, cancelAt, closeAt *time.Duration,
 		for k := priorCalls(tau, tries, len(ds)); k > 0; k-- {
 			preq, _ := dhcpv4.NewDiscovery(labHW, dhcpv4.WithTransactionID(dhcpv4.TransactionID{0x11, 0x22, 0x33, byte(k)}))
 			c.SendAndRead(context.Background(), &net.UDPAddr{IP: net.IPv4bcast, Port: 67}, preq, nclient4.IsMessageType(dhcpv4.MessageTypeOffer))
+		}
+		// ... nor on the calls that are in flight at the same time
+		nc := companions(tau, tries, len(ds))
+		var cwg sync.WaitGroup
+		companion := func(k byte, delay time.Duration) {
+			cwg.Add(1)
+			go func() {
+				defer cwg.Done()
+				time.Sleep(delay)
+				preq, _ := dhcpv4.NewDiscovery(labHW, dhcpv4.WithTransactionID(dhcpv4.TransactionID{0x44, 0x55, 0x66, k}))
+				c.SendAndRead(context.Background(), &net.UDPAddr{IP: net.IPv4bcast, Port: 67}, preq, nclient4.IsMessageType(dhcpv4.MessageTypeOffer))
+			}()
+		}
+		if nc >= 1 {
+			companion(1, 0)
+			time.Sleep(tau / 2)
+		}
+		if nc >= 2 {
+			companion(2, tau/2)
 		}
 		conn.rebase()
 		req, _ := dhcpv4.NewDiscovery(labHW, dhcpv4.WithTransactionID(dhcpv4.TransactionID{0xaa, 0xbb, 0xcc, 0xdd}),
@@ -300,12 +328,16 @@ func timedCallV4(tau time.Duration, tries int, cancelAt, closeAt *time.Duration,
 			out.result = 9
 		}
 		for _, w := range conn.snapshot() {
+			if len(w.data) >= 8 && w.data[4] == 0x44 && w.data[5] == 0x55 && w.data[6] == 0x66 {
+				continue // a companion call's transmission
+			}
 			out.tx = append(out.tx, w.at)
 			out.txData = append(out.txData, w.data)
 			out.txDest = append(out.txDest, w.dest)
 		}
 		reqBytes = req.ToBytes()
 		c.Close()
+		cwg.Wait()
 		synctest.Wait()
 	})
 	return
@@ -333,6 +365,25 @@ func timedCallV6(tau time.Duration, tries int, cancelAt, closeAt *time.Duration,
 			preq, _ := dhcpv6.NewSolicit(labHW)
 			preq.TransactionID = dhcpv6.TransactionID{9, 9, byte(k)}
 			c.SendAndRead(context.Background(), nclient6.AllDHCPRelayAgentsAndServers, preq, nclient6.IsMessageType(dhcpv6.MessageTypeAdvertise))
+		}
+		nc := companions(tau, tries, len(ds))
+		var cwg sync.WaitGroup
+		companion := func(k byte, delay time.Duration) {
+			cwg.Add(1)
+			go func() {
+				defer cwg.Done()
+				time.Sleep(delay)
+				preq, _ := dhcpv6.NewSolicit(labHW)
+				preq.TransactionID = dhcpv6.TransactionID{0x44, 0x55, k}
+				c.SendAndRead(context.Background(), nclient6.AllDHCPRelayAgentsAndServers, preq, nclient6.IsMessageType(dhcpv6.MessageTypeAdvertise))
+			}()
+		}
+		if nc >= 1 {
+			companion(1, 0)
+			time.Sleep(tau / 2)
+		}
+		if nc >= 2 {
+			companion(2, tau/2)
 		}
 		conn.rebase()
 		req, _ := dhcpv6.NewSolicit(labHW, dhcpv6.WithRequestedOptions(dhcpv6.OptionNTPServer, dhcpv6.OptionSNTPServerList, dhcpv6.OptionBootfileURL)) // not in code order
@@ -394,12 +445,16 @@ func timedCallV6(tau time.Duration, tries int, cancelAt, closeAt *time.Duration,
 			out.result = 9
 		}
 		for _, w := range conn.snapshot() {
+			if len(w.data) >= 4 && w.data[1] == 0x44 && w.data[2] == 0x55 {
+				continue // a companion call's transmission
+			}
 			out.tx = append(out.tx, w.at)
 			out.txData = append(out.txData, w.data)
 			out.txDest = append(out.txDest, w.dest)
 		}
 		reqBytes = req.ToBytes()
 		c.Close()
+		cwg.Wait()
 		synctest.Wait()
 	})
 	return
